@@ -9,7 +9,9 @@ R14.3 constructor merges unify components: for each diagonal arm of merge on a c
       Equality(left.f, right.f) is emitted for every such field of the enum definition.
 R14.4 equalities are honoured : every equality, judgement and fresh variable collected in a round reaches forest.union /
       forest.add_data / forest.insert after the class loop, unfiltered.
-Termination of the fixpoint is NOT decided.
+R14.5 arms consume evidence    : an arm that emits a judgement either files a new expression or files it on a fresh variable; re-filing
+      an operand unchanged on an existing variable consumes nothing and lets cyclic evidence loop for ever.
+Termination of the fixpoint in general is NOT decided (R14.5 is one necessary condition).
 """
 from .. import facts as F
 from .. import terms as T
@@ -266,6 +268,43 @@ def check(fx, rep, tier):
     from .c12 import check_merge_boundaries
 
     check_merge_boundaries(fx, rep, "R14.3")
+    # ---------------------------------------------------------------- R14.5 every arm consumes evidence
+    # The round loop ends only after a round in which no class held two expressions. An arm of merge that keeps one operand and
+    # re-files the *other operand unchanged* as a judgement on a variable that already exists (a component of the kept operand,
+    # or the class's own variable) consumes nothing: when that variable belongs to the same class (cyclic evidence such as
+    # `a : packed[span(a, ..)]`, or a two-slot copy cycle) the next round sees the same pair again, for ever.
+    n_j = 0
+    per_arm = {}
+    L, R = mm.left, mm.right
+    fresh_fns = ("allocate_ty_var",)
+    for arm in mm.arms:
+        if arm.delegate:
+            continue
+        body = arm.node["body"]
+        mutated5 = T.mutated_locals(body)
+        fresh_locals = set()
+        for st, _ in F.walk(body):
+            if st.get("s") == "Let" and "init" in st and st["pat"].get("p") == "Bind" and any((F.callee_def(c) or "").split("::")[-1] in fresh_fns for c, _ in F.calls(st["init"])):
+                fresh_locals.add(st["pat"]["local"])
+        for c, cps in F.calls(body):
+            if not F.strip_generics(F.callee_def(c) or "").endswith("unification::Judgement::new") or len(c["args"]) != 2:
+                continue
+            n_j += 1
+            per_arm[arm.label()] = per_arm.get(arm.label(), 0) + 1
+            target = F.local_of(F.strip(c["args"][0]))
+            expr_l = F.local_of(F.strip(c["args"][1]))
+            target_fresh = target in fresh_locals
+            expr_is_operand = expr_l in (L, R)
+            rep.oblige(
+                not (expr_is_operand and not target_fresh),
+                "R14.5",
+                f"refeed:{arm.label()}#{per_arm[arm.label()]}",
+                F.loc(c["span"]),
+                f"merge arm {arm.label()} keeps one operand and files the other operand, unchanged, as a judgement on an existing type variable: nothing is consumed, so with cyclic evidence (that variable in the same class) every round recreates the same pair and unification never reaches a round without progress",
+                sample={"rule": "R14.5", "arm": arm.label(), "judgement_on_fresh_variable": target_fresh, "expression_is_an_operand": expr_is_operand},
+            )
+    rep.floor("R14.5", n_j, 1, "judgements emitted by merge arms")
+
     return rep.finish(
         "Post-condition skeleton of unification: the per-class body stores exactly a singleton set unconditionally, progress is flagged on every fold step and the round loop exits only without progress; "
         "equalities become unions before the rounds and are constructed nowhere else; every diagonal constructor arm of merge emits one equality per type-variable field of the enum definition; "
